@@ -17,11 +17,6 @@ EXCEPTIONS = {
 
 
 SRC_EXCEPTIONS = {
-    ("sqfs_data_reader_read", "memcpy", 0):
-        "copy out of the cached data block at 'offset': the skipping loop in front ends with offset <= block_size or "
-        "i == block_count, the copy loop runs only while i < block_count, and every later round has offset 0; the "
-        "length is min(block_size - offset, size). The correlation between the two loops' conditions is beyond the "
-        "guard reasoning of the engine",
     ("xattr_reader_copy", "memcpy", 0):
         "copy of the whole id_block_starts table: length sizeof(u64) * num_id_blocks is the very product the table was "
         "allocated with (alloc_array(sizeof(u64), num_id_blocks)); offset 0",
